@@ -344,6 +344,7 @@ def c03_lazy(run, fx, floors):
     users = {owner_ty(x.root) for x in fx.bodies if x.kind != "Closure" and any(callee_is(t, "font::LazyLoad::<T>::get_or_load") for _, t in x.calls())}
     font_fns = [x for x in fx.bodies if x.kind != "Closure" and owner_ty(x.root) in users]
     writes = {}   # (type, field) -> set(fn root) that assign it (excluding struct literals)
+    wblocks = {}  # (type, field, fn root) -> [(body, block)]
     for fb in font_fns:
         for bi, blk in enumerate(fb.blocks):
             if not fb.reachable(bi):
@@ -351,6 +352,35 @@ def c03_lazy(run, fx, floors):
             for s in blk["s"]:
                 if s["k"] == "assign" and s["p"]["l"] == 1 and len(s["p"]["p"]) >= 2 and s["p"]["p"][0] == "*" and isinstance(s["p"]["p"][1], dict) and "f" in s["p"]["p"][1]:
                     writes.setdefault((owner_ty(fb.root), s["p"]["p"][1].get("n")), set()).add(fb.root)
+                    wblocks.setdefault((owner_ty(fb.root), s["p"]["p"][1].get("n"), fb.root), []).append((fb, bi))
+
+    def always_with(oty, dep, slot, fn_root):
+        """every write of `dep` in fn_root is accompanied by a write of `slot` on every path: some slot write is in the same block,
+        dominates the dep write, or lies on every path from the dep write to a return"""
+        for (fb, wb) in wblocks.get((oty, dep, fn_root), []):
+            ss = [sb for (sfb, sb) in wblocks.get((oty, slot, fn_root), []) if sfb is fb]
+            ok = False
+            for sb in ss:
+                if sb == wb or fb.dominates(sb, wb):
+                    ok = True
+                    break
+                # post-dominance: no return reachable from wb when sb is removed
+                seen, todo, escapes = {wb}, [wb], False
+                while todo and not escapes:
+                    x = todo.pop()
+                    if fb.term(x)["k"] == "return":
+                        escapes = True
+                        break
+                    for y in fb.succs(x):
+                        if y != sb and y not in seen:
+                            seen.add(y)
+                            todo.append(y)
+                if not escapes:
+                    ok = True
+                    break
+            if not ok:
+                return False
+        return True
     n = 0
     for fb in font_fns:
         prov = sym.Prov(fb)
@@ -378,11 +408,11 @@ def c03_lazy(run, fx, floors):
             oty = owner_ty(fb.root)
             for d in sorted(deps):
                 for w in sorted(writes.get((oty, d), ())):
-                    if w not in writes.get((oty, slot), ()):
+                    if w not in writes.get((oty, slot), ()) or not always_with(oty, d, slot, w):
                         bad.append((d, w))
             if bad:
-                run.fail(rule, "lazy:%s:%s" % (slot, ",".join("%s<-%s" % (d, w.split("::")[-1]) for d, w in bad)),
-                         "the loader of Font.%s reads %s, which %s reassigns without resetting the slot" % (slot, sorted({d for d, _ in bad}), sorted({w for _, w in bad})), fb.loc(t), ledger="memo")
+                run.fail(rule, "lazy:%s.%s:%s" % (oty.split("::")[-1].split("<")[0], slot, ",".join("%s<-%s" % (d, w.split("::")[-1]) for d, w in bad)),
+                         "the loader of Font.%s reads %s, which %s reassigns without resetting the slot on every path" % (slot, sorted({d for d, _ in bad}), sorted({w for _, w in bad})), fb.loc(t), ledger="memo")
             else:
                 run.ok(rule, "Font.%s: loader reads %s (never reassigned, or only together with the slot)" % (slot, sorted(deps)))
     if floors:
@@ -455,3 +485,7 @@ def check(run, fx, tier, floors=True):
     c03_lazy(run, fx, floors)
     c03_b(run, fx, floors)
     c03_c(run, fx)
+    if floors or fx.body("layout::new_layout_cache") is not None:
+        # the lookup caches are index memos: the remembered index must be the position of the list it stands for
+        import rules_C02
+        rules_C02.c02_s(run, fx)
